@@ -1126,6 +1126,30 @@ def _always_returns_value(fn):
     return ends(fn.body)
 
 
+def normalise_partialmethods(trees):
+    """class K: name = functools.partialmethod(method, a, b)   ->   def name(self): return self.method(a, b)
+    (positional arguments only; `method` a method of the same class)"""
+    for tree in trees.values():
+        for cls in [n for n in ast.walk(tree) if isinstance(n, ast.ClassDef)]:
+            own = {m.name for m in cls.body if isinstance(m, ast.FunctionDef)}
+            for i, st in enumerate(list(cls.body)):
+                if not (isinstance(st, ast.Assign) and len(st.targets) == 1 and isinstance(st.targets[0], ast.Name) and isinstance(st.value, ast.Call)):
+                    continue
+                c = st.value
+                if ast.unparse(c.func) not in ('partialmethod', 'functools.partialmethod') or not c.args or c.keywords or not isinstance(c.args[0], ast.Name) or c.args[0].id not in own:
+                    continue
+                call = ast.Call(func=ast.Attribute(value=ast.Name(id='self', ctx=ast.Load()), attr=c.args[0].id, ctx=ast.Load()), args=list(c.args[1:]), keywords=[])
+                fn = ast.FunctionDef(name=st.targets[0].id, args=ast.arguments(posonlyargs=[], args=[ast.arg(arg='self')], kwonlyargs=[], kw_defaults=[], defaults=[]),
+                                     body=[ast.Return(value=call)], decorator_list=[], returns=None, type_params=[])
+                ast.copy_location(fn, st)
+                for y in ast.walk(fn):
+                    if not hasattr(y, 'lineno'):
+                        ast.copy_location(y, st)
+                fn.end_lineno = getattr(st, 'end_lineno', st.lineno)
+                cls.body[cls.body.index(st)] = fn
+        ast.fix_missing_locations(tree)
+
+
 def _never_none(v, fn):
     """is the expression certainly not None?  (literals, arithmetic, conversions, parameters that have no None default
     and are not re-bound)"""
@@ -1266,6 +1290,7 @@ class Repo:
             normalise_module_qualified_names(self.trees)
             normalise_namedtuple_classes(self.trees)
             synthesise_dataclass_init(self.trees)
+            normalise_partialmethods(self.trees)
             from .spec import ATTR_ORDER
             self.renamed_attributes = canonical_attribute_names(self.trees, ATTR_ORDER)
             self.unsupported_properties = normalise_properties(self.trees)
